@@ -14,6 +14,7 @@ def check(ctx):
     F = ctx.facts("prod")
     ctx.clause("R-WRITERS/R-GUARD/R-PAIR call request issued at one site, under should_execute && peer == current, pending mark persisted")
     ctx.clause("R-TABLE handle_prev_state decision table; StateDescriptor constructors; !should_execute re-emits the met state")
+    ctx.clause("R-TABLE a call that ends without a result marks the subgraph incomplete (not_ready, cant_execute_now, issued, forwarded)")
     ctx.clause("R-WRITERS/R-PAIR call_results consumed only by remove(call_id) in handle_prev_state; exactly one meet_call_end follows")
     ctx.clause("R-TABLE call merge prefers Executed/Failed over RequestSentBy and keeps the previous (own) pending mark on RequestSentBy/RequestSentBy")
 
@@ -183,3 +184,4 @@ def check(ctx):
     # --- merge table
     mergetab.call_merge_prefers_result(ctx, F)
     mergetab.call_merge_keeps_pending_mark(ctx, F)
+    common.pending_call_blocks_sequence(ctx, F)
